@@ -874,12 +874,32 @@ func (fx *FuncCtx) modTargets(env *SpecEnv, e Expr) []modTarget {
 		}
 		obj, idx, _ := types.LookupFieldOrMethod(p.Elem(), true, env.pkgFor(p.Elem()), x.Name)
 		fld, ok := obj.(*types.Var)
-		if !ok || len(idx) != 1 {
-			sfail("modifies %s: no direct field", e)
+		if !ok || len(idx) < 1 {
+			sfail("modifies %s: no field", e)
+		}
+		// promoted fields of by-value embedded structs: the path through the embedding
+		path := ""
+		cur := p.Elem()
+		for k, i := range idx {
+			st, isStruct := cur.Underlying().(*types.Struct)
+			if !isStruct {
+				sfail("modifies %s: no direct field", e)
+			}
+			f := st.Field(i)
+			if path != "" {
+				path += "."
+			}
+			path += f.Name()
+			if k < len(idx)-1 {
+				if _, isPtr := f.Type().Underlying().(*types.Pointer); isPtr {
+					sfail("modifies %s: field promoted through an embedded pointer", e)
+				}
+				cur = f.Type()
+			}
 		}
 		var ks []HeapKey
 		for _, c := range fx.mode.comps(fld.Type()) {
-			ks = append(ks, fx.fieldKey(p.Elem(), x.Name, c))
+			ks = append(ks, fx.fieldKey(p.Elem(), path, c))
 		}
 		return []modTarget{{keys: ks, ref: v.s()}}
 	case *EIdent:
